@@ -54,13 +54,13 @@ func kindOfKey(k []byte) string {
 }
 
 func (s *faultObjStore) Set(k, v []byte) error {
-	if err := s.b.allow("obj.set:" + kindOfKey(k)); err != nil {
+	if err := s.b.allow("obj.set:" + string(k)); err != nil {
 		return err
 	}
 	return s.Store.Set(k, v)
 }
 func (s *faultObjStore) Delete(k []byte) error {
-	if err := s.b.allow("obj.del:" + kindOfKey(k)); err != nil {
+	if err := s.b.allow("obj.del:" + string(k)); err != nil {
 		return err
 	}
 	return s.Store.Delete(k)
@@ -72,19 +72,19 @@ type faultRefStore struct {
 }
 
 func (s *faultRefStore) Set(k string, v []byte) error {
-	if err := s.b.allow("ref.set"); err != nil {
+	if err := s.b.allow("ref.set:" + k + ":" + string(v)); err != nil {
 		return err
 	}
 	return s.Store.Set(k, v)
 }
 func (s *faultRefStore) SetWithLog(k string, v []byte, l *ref.Reflog) error {
-	if err := s.b.allow("ref.setlog"); err != nil {
+	if err := s.b.allow("ref.set:" + k + ":" + string(v)); err != nil {
 		return err
 	}
 	return s.Store.SetWithLog(k, v, l)
 }
 func (s *faultRefStore) Delete(k string) error {
-	if err := s.b.allow("ref.del"); err != nil {
+	if err := s.b.allow("ref.del:" + k); err != nil {
 		return err
 	}
 	return s.Store.Delete(k)
